@@ -133,6 +133,10 @@ fn run_one(p: &ParCase, engine: Engine) -> ExecOut {
 /// Concurrent executions (and, for the compilers, concurrent compilations) of address-independent
 /// cases on per-thread VMs, inside one forked child. `batch` comes from `pre_run`.
 pub fn exec_par(rep: &mut Report, prop: &str, batch: &[Pre], engine: Engine) {
+    exec_par_rounds(rep, prop, batch, engine, 2)
+}
+
+pub fn exec_par_rounds(rep: &mut Report, prop: &str, batch: &[Pre], engine: Engine, rounds: usize) {
     let elig: Vec<ParCase> = batch
         .iter()
         .filter(|p| {
@@ -148,7 +152,7 @@ pub fn exec_par(rep: &mut Report, prop: &str, batch: &[Pre], engine: Engine) {
     }
     let ends = sys::run_batch(1, 300, 300, |_i, out| {
         hooks::unlimited();
-        let (execs, bad) = par_same(&elig, |p| run_one(p, engine), 2);
+        let (execs, bad) = par_same(&elig, |p| run_one(p, engine), rounds);
         out.extend_from_slice(&execs.to_le_bytes());
         out.extend_from_slice(&(bad.len() as u32).to_le_bytes());
         for (i, d) in bad {
